@@ -14,6 +14,7 @@ HARNESS_PACKAGES = [
     ("motion-driver", {}),
     ("motion-driver", {"release": True}),
     ("ssr-driver", {}),
+    ("futures-driver", {}),
 ]
 
 TB = ("Trusted: Coq 8.16.1 kernel and vm_compute; the hand-written Gallina model is tied to the code only by the "
@@ -112,6 +113,31 @@ CHECKS["C12"] = dict(
           "2-5 renders the real bytes equal the model's bytes (a pure function of state and view) at every position, the same view renders identically after different histories, keys are unique and "
           "ordered, and the live node count at the start of every render is constant. Blocking / streaming renders are covered by C13's check only."),
     note=SSRNOTE, design="5.C12")
+
+ATB = TB + "tokio's LocalSet, futures::Abortable and oneshot channels are replaced by explicit schedules and three-line transition rules (compared on every run, not verified)."
+CHECKS["C13"] = dict(
+    category="other",
+    technique="executable Gallina transition system of sycamore-futures' suspense scopes + differential correspondence over all completion orders + oracle; theorems in progress",
+    text=("Async/Suspense.v models suspense scopes (counter owned by the enclosing scope, parent links), scoped tasks made of chained awaits and their guards. Every run drives the real "
+          "create_suspense_scope / create_suspense_task / is_loading / use_is_loading on a current-thread tokio runtime with explicit schedules over 8 shapes of trees of <= 3 boundaries, "
+          "ALL orders in which <= 5 awaits complete, and compares every observation with the model; the oracle checks is_loading <=> an unfinished task under the boundary or an ancestor after "
+          "every step. The rendering half (blocking returns only when all tasks finished; streaming emits shell once, each boundary once, parent first) is NOT covered yet. No theorem yet: level `other`."),
+    note=ATB, design="5.C13")
+CHECKS["C14"] = dict(
+    category="other",
+    technique="executable Gallina transition system + fault enumeration (a disposal at every step for every scope) against the real executor + oracle; theorems in progress",
+    text=("Same transition system with cancellation: disposing a scope aborts the tasks spawned under it; the executor later drops them and their guards. Every run inserts a disposal of every "
+          "scope at every position of several schedules over 5 base trees (348 cases quick), drains the executor, and compares poll logs, panics caught by the hook and loading flags with the "
+          "model; the oracle checks: no poll of a task after its scope died, no panic at disposal / at task drop / at root disposal, counters of surviving boundaries released. No theorem yet: level `other`."),
+    note=ATB, design="5.C14")
+CHECKS["C15"] = dict(
+    technique="Coq proof (invariant by induction over all event sequences) on a transition system of Resource + differential correspondence over all completion orders + oracle",
+    text=("Async/Resource.v: dependency writes start a new fetch and kill the previous one, completions apply only to a live fetch. Proved for EVERY sequence of writes and completions: at most the "
+          "latest fetch is live and is_loading is exactly its liveness (C15_loading_iff_latest_outstanding), a completion of any other fetch changes nothing (C15_stale_completion_ignored), the "
+          "completion of the latest installs its result and ends loading (C15_latest_completion_wins), a write keeps the old value readable (C15_old_value_readable), the value is always the "
+          "result of some started fetch. The system is compared with the real create_isomorphic_resource under 0-3/0-4 writes x every subset, order and placement of completions (incl. never, "
+          "stale, repeated) and the oracle restates the three clauses on the observed sequence."),
+    note=ATB + " The abort of the previous fetch by the effect's cleanup is part of the runtime covered by C04/C14.", design="5.C15")
 
 NOT_YET = {}
 
